@@ -181,6 +181,32 @@ func (c *ctl) fail(sig, what string) {
 	c.fails = append(c.fails, vh.OracleFailure{Signature: sig, What: what + " (" + bk + ")", Replay: c.line})
 }
 
+// a free-running request did not return: if it waits for shardLock although every call of the
+// schedule has returned, the lock was leaked (nobody is left to release it) - the manager is dead
+func (c *ctl) failHang(what string) {
+	var who []string
+	for id, g := range snapshot() {
+		if k := blockedKind(g); k != "" && strings.Contains(g.stack, "cluster.(*ShardManager)") {
+			fn := "?"
+			for _, name := range []string{"loadShard", "DeleteCollectionShards", "cleanupRoutine", "DoWithShard"} {
+				if strings.Contains(g.stack, "ShardManager)."+name) {
+					fn = name
+					break
+				}
+			}
+			who = append(who, fmt.Sprintf("g%d:%s:blocked_%s(%s)", id, fn, k, g.state))
+		}
+	}
+	sort.Strings(who)
+	for _, w := range who {
+		if strings.Contains(w, "blocked_store") {
+			c.fail("deadlock", what+": it waits for shardLock, which no running call holds any more (leaked by a call that returned): "+strings.Join(who, " "))
+			return
+		}
+	}
+	c.fail("reload-failed", what+": "+strings.Join(who, " "))
+}
+
 func yieldHook(point string) {
 	c := cur.Load()
 	if c == nil {
@@ -437,6 +463,61 @@ func flockHeld(path string) bool {
 	return false
 }
 
+// ---- loads that fail: an unopenable database file, a non-directory at the shard path
+
+const garbageLen = 64 << 10
+
+var garbageMagic = []byte("C12-torn-shard-file\x00\xff\x00\xff")
+
+// garbage: 64 KiB that bbolt cannot open (what a torn / half-transferred sharddb.bbolt looks like):
+// a recognisable marker, then seeded random bytes
+func garbage(seed uint64) []byte {
+	b := make([]byte, garbageLen)
+	copy(b, garbageMagic)
+	r := vh.NewRng(seed ^ 0xC12BAD)
+	for i := len(garbageMagic); i+8 <= len(b); i += 8 {
+		x := r.U64()
+		for j := 0; j < 8; j++ {
+			b[i+j] = byte(x >> (8 * j))
+		}
+	}
+	return b
+}
+
+// corruptShard makes the database file of the shard directory unopenable (directory created if need be)
+func corruptShard(dir string, seed uint64) error {
+	if err := os.MkdirAll(dir, 0o755); err != nil {
+		return err
+	}
+	return os.WriteFile(filepath.Join(dir, "sharddb.bbolt"), garbage(seed), 0o644)
+}
+
+// blockShardDir puts a regular file at the path of the shard directory: os.MkdirAll fails
+func blockShardDir(dir string) error {
+	if err := os.MkdirAll(filepath.Dir(dir), 0o755); err != nil {
+		return err
+	}
+	return os.WriteFile(dir, []byte("not a directory\n"), 0o644)
+}
+
+func isGarbageFile(path string) bool {
+	f, err := os.Open(path)
+	if err != nil {
+		return false
+	}
+	defer f.Close()
+	buf := make([]byte, len(garbageMagic))
+	if n, _ := f.Read(buf); n != len(buf) {
+		return false
+	}
+	return bytes.Equal(buf, garbageMagic)
+}
+
+func isRegularFile(path string) bool {
+	st, err := os.Lstat(path)
+	return err == nil && st.Mode().IsRegular()
+}
+
 func (c *ctl) dirObs(d [2]int) string {
 	dir := shardDir(c.root, d[0], d[1])
 	e, o, s, n := "-", "-", "-", "-"
@@ -453,7 +534,14 @@ func (c *ctl) dirObs(d [2]int) string {
 			n = "N"
 		}
 	}
-	return fmt.Sprintf("%d.%d:%s%s%s%s", d[0], d[1], e, o, s, n)
+	b, f := "-", "-"
+	if isGarbageFile(filepath.Join(dir, "sharddb.bbolt")) {
+		b = "B"
+	}
+	if isRegularFile(dir) {
+		f = "F"
+	}
+	return fmt.Sprintf("%d.%d:%s%s%s%s%s%s", d[0], d[1], e, o, s, n, b, f)
 }
 
 func (c *ctl) obsAll(ds [][2]int) string {
@@ -511,7 +599,7 @@ func (c *ctl) postStepOracle(t *thread, from, status string) {
 }
 
 type act struct {
-	kind string // nR nD r f
+	kind string // nR nD r f xB xF xR
 	a, b int
 	tok  string
 }
@@ -520,7 +608,7 @@ func parseActs(toks []string) ([]act, error) {
 	var out []act
 	for _, tok := range toks {
 		switch {
-		case strings.HasPrefix(tok, "nR"):
+		case strings.HasPrefix(tok, "nR"), strings.HasPrefix(tok, "xB"), strings.HasPrefix(tok, "xF"), strings.HasPrefix(tok, "xR"):
 			p := strings.Split(tok[2:], ".")
 			if len(p) != 2 {
 				return nil, fmt.Errorf("bad act %s", tok)
@@ -530,7 +618,7 @@ func parseActs(toks []string) ([]act, error) {
 			if e1 != nil || e2 != nil {
 				return nil, fmt.Errorf("bad act %s", tok)
 			}
-			out = append(out, act{"nR", a, b, tok})
+			out = append(out, act{tok[:2], a, b, tok})
 		case strings.HasPrefix(tok, "nD"):
 			a, err := strconv.Atoi(tok[2:])
 			if err != nil {
@@ -573,11 +661,11 @@ func runSchedule(line string, base string, idx int, backups bool) (string, []vh.
 	}
 	c.sm = cluster.NewShardManager(cluster.ShardManagerConfig{RootDir: root, ShardTimeout: 3600, MaxCacheSize: -1})
 	cur.Store(c)
-	// universe of directories: every nR of the line, sorted
+	// universe of directories: every nR / xB / xF of the line, sorted
 	seen := map[[2]int]bool{}
 	var ds [][2]int
 	for _, a := range acts {
-		if a.kind == "nR" && !seen[[2]int{a.a, a.b}] {
+		if (a.kind == "nR" || a.kind == "xB" || a.kind == "xF" || a.kind == "xR") && !seen[[2]int{a.a, a.b}] {
 			seen[[2]int{a.a, a.b}] = true
 			ds = append(ds, [2]int{a.a, a.b})
 		}
@@ -595,6 +683,36 @@ func runSchedule(line string, base string, idx int, backups bool) (string, []vh.
 		case "nD":
 			t := c.newDel(a.a)
 			st = c.await(t, stepTimeout)
+		case "xB", "xF", "xR":
+			// environment acts (the model enables xB only while no handle is open on the file, xF only
+			// while the directory does not exist, xR only while the file is garbage)
+			dir := shardDir(root, a.a, a.b)
+			var err error
+			switch {
+			case a.kind == "xB" && flockHeld(filepath.Join(dir, "sharddb.bbolt")):
+				err = errors.New("database file is open")
+			case a.kind == "xB":
+				err = corruptShard(dir, uint64(idx)*31+uint64(a.a)*7+uint64(a.b))
+			case a.kind == "xR":
+				// the failure was transient: the garbage goes away, the next load creates / opens a database
+				if !isGarbageFile(filepath.Join(dir, "sharddb.bbolt")) {
+					err = errors.New("database file is not garbage")
+				} else {
+					err = os.Remove(filepath.Join(dir, "sharddb.bbolt"))
+				}
+			default:
+				if _, serr := os.Lstat(dir); serr == nil {
+					err = errors.New("path exists")
+				} else {
+					err = blockShardDir(dir)
+				}
+			}
+			if err != nil {
+				st = "IMPOSSIBLE(" + a.kind + ":" + strings.ReplaceAll(err.Error(), " ", "-") + ")"
+				stopped = true
+				break
+			}
+			st = "env"
 		case "r", "f":
 			c.mu.Lock()
 			var t *thread
@@ -731,8 +849,42 @@ func runSchedule(line string, base string, idx int, backups bool) (string, []vh.
 		c.mu.Unlock()
 		c.fail("deadlock", "shard manager calls never return: "+strings.Join(who, " "))
 	} else {
-		// afterwards new requests can load shards again (free running)
+		// afterwards new requests can load shards again (free running).  Shards that cannot be loaded at
+		// this point (garbage database file, non-directory at the path) come FIRST: their requests must
+		// return (a clean error), and the requests on all the other shards after them must still succeed
+		var order [][2]int
+		unloadable := map[[2]int]bool{}
 		for _, d := range ds {
+			dir := shardDir(c.root, d[0], d[1])
+			if isGarbageFile(filepath.Join(dir, "sharddb.bbolt")) || isRegularFile(dir) {
+				unloadable[d] = true
+				order = append(order, d)
+			}
+		}
+		for _, d := range ds {
+			if !unloadable[d] {
+				order = append(order, d)
+			}
+		}
+		for _, d := range order {
+			if unloadable[d] {
+				res := make(chan error, 1)
+				go func() {
+					res <- c.sm.DoWithShard(c.collection(d[0]), fmt.Sprintf("s%d", d[1]), func(s *shard.Shard) error {
+						_, err := s.Info()
+						return err
+					})
+				}()
+				select {
+				case err := <-res:
+					if err != nil && !strings.Contains(err.Error(), "could not load shard") && !strings.Contains(err.Error(), "already closed") {
+						c.fail("clean-error", fmt.Sprintf("a request on shard %d.%d, which cannot be loaded, failed with an unexpected error: %v", d[0], d[1], err))
+					}
+				case <-time.After(5 * time.Second):
+					c.failHang(fmt.Sprintf("after all calls returned a new request on shard %d.%d (which cannot be loaded) does not return", d[0], d[1]))
+				}
+				continue
+			}
 			res := make(chan error, 1)
 			go func() {
 				res <- c.sm.DoWithShard(c.collection(d[0]), fmt.Sprintf("s%d", d[1]), func(s *shard.Shard) error {
@@ -754,7 +906,7 @@ func runSchedule(line string, base string, idx int, backups bool) (string, []vh.
 					}
 				}
 			case <-time.After(5 * time.Second):
-				c.fail("reload-failed", fmt.Sprintf("after all calls returned a new request on shard %d.%d does not return", d[0], d[1]))
+				c.failHang(fmt.Sprintf("after all calls returned a new request on shard %d.%d does not return", d[0], d[1]))
 			}
 		}
 	}
@@ -982,13 +1134,14 @@ func runForced(lines []string, seed uint64, par int) ([]string, []vh.OracleFailu
 // ------------------------------------------------------------------------------------ stress
 
 type stressReport struct {
-	Ops    int64    `json:"ops"`
-	Ok     int64    `json:"ok"`
-	Errs   int64    `json:"errs"`
-	Dels   int64    `json:"dels"`
-	Fails  []string `json:"fails"`
-	Hung   bool     `json:"hung"`
-	Stacks string   `json:"stacks"`
+	Ops      int64    `json:"ops"`
+	Ok       int64    `json:"ok"`
+	Errs     int64    `json:"errs"`
+	Dels     int64    `json:"dels"`
+	LoadErrs int64    `json:"load_errs"` // requests on shards that cannot be loaded (garbage file / blocked path)
+	Fails    []string `json:"fails"`
+	Hung     bool     `json:"hung"`
+	Stacks   string   `json:"stacks"`
 }
 
 func stressWorker(seed uint64, dur time.Duration, timeout int) {
@@ -1004,6 +1157,16 @@ func stressWorker(seed uint64, dur time.Duration, timeout int) {
 			rep.Fails = append(rep.Fails, s)
 		}
 		mu.Unlock()
+	}
+	// a collection that is never deleted, with two shards that cannot be loaded: s0 has a garbage
+	// database file, a regular file sits at the path of s1.  Requests on them must get the clean
+	// error and must not disturb anybody else (shardLock is shared by the whole manager)
+	badCol := models.Collection{UserId: "u", Id: "cbad"}
+	if err := corruptShard(filepath.Join(base, cluster.USERCOLSDIR, "u", "cbad", "s0"), seed); err != nil {
+		panic(err)
+	}
+	if err := blockShardDir(filepath.Join(base, cluster.USERCOLSDIR, "u", "cbad", "s1")); err != nil {
+		panic(err)
 	}
 	var progress atomic.Int64
 	stop := make(chan struct{})
@@ -1033,7 +1196,20 @@ func stressWorker(seed uint64, dur time.Duration, timeout int) {
 				default:
 				}
 				c, sh := r.Intn(2), r.Intn(2)
-				if r.Intn(10) == 0 {
+				if r.Intn(8) == 0 {
+					ran := false
+					err := sm.DoWithShard(badCol, fmt.Sprintf("s%d", sh), func(s *shard.Shard) error {
+						ran = true
+						_, err := s.Info()
+						return err
+					})
+					atomic.AddInt64(&rep.LoadErrs, 1)
+					if err == nil || ran {
+						addFail(fmt.Sprintf("clean-error: a request on a shard that cannot be loaded (cbad/s%d) ran its callback (err=%v)", sh, err))
+					} else if !strings.Contains(err.Error(), "could not load shard") && !strings.Contains(err.Error(), "already closed") {
+						addFail("unexpected error: " + err.Error())
+					}
+				} else if r.Intn(10) == 0 {
 					sm.DeleteCollectionShards(col(c, c == 1))
 					atomic.AddInt64(&rep.Dels, 1)
 				} else {
@@ -1150,6 +1326,7 @@ func runStress(seed uint64, dur time.Duration) (stressReport, []vh.OracleFailure
 		total.Ok += rep.Ok
 		total.Errs += rep.Errs
 		total.Dels += rep.Dels
+		total.LoadErrs += rep.LoadErrs
 		if rep.Hung {
 			total.Hung = true
 			fails = append(fails, vh.OracleFailure{Signature: "deadlock", What: "unforced stress: no shard manager call made progress for 5 s; blocked goroutines:\n" + rep.Stacks, Replay: replay})
@@ -1232,13 +1409,14 @@ func main() {
 	blocked, longest := 0, 0
 	for i, l := range lines {
 		flags := ""
-		for _, fl := range [][2]string{{"=blocked_rlock", "R"}, {"=blocked_wlock", "W"}, {"=ret_err", "E"}, {" nD", "D"}, {" f", "T"}, {"dl=1", "X"}} {
+		for _, fl := range [][2]string{{"=blocked_rlock", "R"}, {"=blocked_wlock", "W"}, {"=ret_err", "E"}, {" nD", "D"}, {" f", "T"}, {"dl=1", "X"}, {" xB", "B"}, {" xF", "F"}, {" xR", "P"}} {
 			if strings.Contains(traces[i], fl[0]) || strings.Contains(l, fl[0]) {
 				flags += fl[1]
 			}
 		}
 		// R: an RLock queued behind a writer, W: a Lock waited for readers, E: a request got the clean
-		// error, D: a deletion ran, T: an idle timer fired, X: deadlock
+		// error, D: a deletion ran, T: an idle timer fired, X: deadlock, B: the database file of a shard was made
+		// garbage (NewShard fails), F: a non-directory was put at a shard path (MkdirAll fails), P: a garbage file was repaired
 		kind := "sched[" + flags + "]"
 		if strings.Contains(traces[i], "=blocked_rlock") || strings.Contains(traces[i], "=blocked_wlock") {
 			blocked++
